@@ -177,6 +177,10 @@ def _split():
         for op, grow, keys in (("push", 1, (n,)), ("change_priority", 0, (0, 3, n - 1)), ("remove", 0, (0, 1, 7))):
             for k in keys:
                 step(op, "pq", n, "inv", "or", {"C01": QUICK if n == 15 else THOROUGH}, tables=f"idk{k}", grow=grow, cost=200, mem=4)
+    # change_priority_by shares the sift path of change_priority but not its entry point
+    for n, keys in ((4, (0, 1, 3)), (6, (1, 3))):
+        for k in keys:
+            step("change_priority_by", "dq", n, "inv", "or", {"C02": QUICK}, tables=f"idk{k}", cost=40 * n)
     # C11 / C12 on the min-max heap at n = 4: every position, all groups
     for n, t in ((4, QUICK), (6, THOROUGH)):
         for op in ("push_increase", "push_decrease"):
@@ -428,7 +432,8 @@ def _bulk():
         # ---- extend, rebuild strategy: receiver of 8 (identity tables), hint far above
         for tag, keys in (("ab", [8, 9]), ("xa", [3, 8]), ("xx", [5, 5])):
             for hname in ("far", "max"):
-                t = QUICK if (not dq and hname == "far" and tag in ("xa", "xx")) else THOROUGH
+                # (min-max heap: 5 min; the pattern in which nothing is new leaves the length unchanged)
+                t = QUICK if (hname == "far" and ((not dq and tag in ("xa", "xx")) or (dq and tag == "xx"))) else THOROUGH
                 inst(f"extend_{kind}_n8_m2_{tag}_{hname}_rebuild",
                      f"bulk::extend::<{ty}, 8, 2, {seq_of(keys)}>(Pre::Inv, Tables::Identity, step::ALL, {HINTS[hname]})",
                      kind, 10, {"C07": t}, "STEP",
@@ -574,6 +579,14 @@ def _misc():
                          f"misc::capacity::<{ty}, {n}>({opx}, {amt}, {B[huge]})", kind, n + 1, {"C17": t}, "STEP",
                          meta=dict(op=opn, kind=kind, n=n, additional=amt), covers_required=False,
                          cost=(n + 1) * (40 if dq else 6), unwind_min=n + 10)
+                    if n in (1, 3) and tag in ("1", "5", "x"):
+                        # pre-states with no / more unused capacity than the default two slots
+                        for sp in (0, 4):
+                            inst(f"cap_{kind}_{opn}_n{n}_{tag}_s{sp}",
+                                 f"misc::capacity_spare::<{ty}, {n}>({opx}, {amt}, {B[huge]}, {sp})", kind, n + 1,
+                                 {"C17": QUICK if (n == 1 and not (dq and tag == "1")) else THOROUGH}, "STEP",
+                                 meta=dict(op=opn, kind=kind, n=n, additional=amt, spare_capacity=sp), covers_required=False,
+                                 cost=(n + 1) * (40 if dq else 6), unwind_min=n + 10)
 
 
 _misc()
